@@ -108,18 +108,18 @@ for n in (1, 5, 9, 10):
         BN_DEC, quick=n in (9,), est_s=200, cap_s=1800, mem_gb=28,
         stubs=["num_bigint::BigUint::from_radix_le", "<num_bigint::BigUint as std::convert::From<u64>>::from"])
     add("C09", f"c09_int_dec_len{n}", "ext", "c09_bignum", f"all SLEB128 strings of exactly {n} bytes (continuation bits forced)",
-        BN_DEC, quick=n in (9, 10), est_s=200, cap_s=1800, mem_gb=28,
+        BN_DEC, quick=n in (9,), est_s=200, cap_s=1800, mem_gb=28,
         stubs=["num_bigint::BigUint::from_radix_le", "<num_bigint::BigInt as std::convert::From<i64>>::from"])
 for n in range(9, 17):
     add("C09", f"c09_int_enc_big{n}", "ext", "c09_bignum",
         f"all integers whose minimal two's-complement form has exactly {n} bytes (to_i64 -> None, to_signed_bytes_le returns "
         f"the minimal bytes by contract)",
-        "Int::encode (hand-written 8->7 bit repacking) emits exactly the minimal SLEB128 of the value", quick=n in (9, 10, 16),
-        est_s=60, stubs=["num_bigint::BigInt::to_signed_bytes_le"])
+        "Int::encode (hand-written 8->7 bit repacking) emits exactly the minimal SLEB128 of the value", quick=n in (9,),
+        est_s=250, cap_s=1800, stubs=["num_bigint::BigInt::to_signed_bytes_le"])
 for n in (10, 11, 14, 19):
     add("C09", f"c09_nat_enc_big{n}", "ext", "c09_bignum",
         f"all naturals > u64::MAX with exactly {n} base-128 digits (to_u64 -> None, to_radix_le returns the digits by contract)",
-        "Nat::encode emits exactly the minimal LEB128 of the value", quick=n in (10, 19), est_s=60,
+        "Nat::encode emits exactly the minimal LEB128 of the value", quick=n in (10,), est_s=120, cap_s=1800,
         stubs=["num_bigint::BigUint::to_radix_le"])
 
 U128_WHAT = ("deserialize_u128 on constructed decoder state: Ok => wire is nat, value == LEB128 value, bytes consumed == "
@@ -149,7 +149,7 @@ TEXT_WHAT = ("text target: Ok(s) => wire is text, LEB length prefix (minimal or 
 add(["C08", "C06", "C07"], "c08_text_str_le5", "candid", "de_prim",
     "symbolic length 0..=5 bytes x 17 wire prims x symbolic quotas", TEXT_WHAT + " (&str, borrowed)", est_s=120)
 add(["C08", "C06", "C07"], "c08_text_string_le4", "candid", "de_prim",
-    "symbolic length 0..=4 bytes x 17 wire prims x symbolic quotas", TEXT_WHAT + " (String, owned)", est_s=120)
+    "symbolic length 0..=4 bytes x 17 wire prims x symbolic quotas", TEXT_WHAT + " (String, owned)", quick=False, est_s=120)
 add(["C08", "C06"], "c08_text_str_eq12", "candid", "de_prim",
     "all 12-byte buffers (length prefixes of up to 10 LEB128 bytes: huge, padded, > 2^64) x 17 wire prims x symbolic quotas",
     TEXT_WHAT + " (&str; hostile length prefixes)", quick=False, est_s=2400, cap_s=5400, mem_gb=28)
@@ -218,9 +218,10 @@ RT = [("bool", "all bool"), ("u8", "all u8"), ("u16", "all u16"), ("u32", "all u
       ("vec_string_1", "Vec<String> of one 2-byte string")]
 RT += [("vec_box_u64_1", "all Vec<Box<u64>> of 1 element (wrapper element type)"),
        ("vec_box_u32_2", "all Vec<Box<u32>> of 2 elements (wrapper element type)")]
-RT_QUICK = {"bool", "u16", "i64", "f64", "string2", "opt_u8", "tuple_u8_i32", "vec_u16_2", "vec_bool_2", "vec_opt_u8_2"}
+RT_QUICK = {"bool", "u16", "i64", "f32", "f64", "unit", "string0", "tuple_u8_i32", "vec_u16_2", "vec_bool_2", "vec_u8_2", "vec_empty_u32"}
 for n, d in RT:
-    add(["C01", "C03"], f"c01_rt_{n}", "candid", "de_rt", d, RT_WHAT, quick=n in RT_QUICK, est_s=90, cbmc_args=MEMCMP_)
+    add(["C01", "C03"], f"c01_rt_{n}", "candid", "de_rt", d, RT_WHAT, quick=n in RT_QUICK, est_s=90, cap_s=600 if n in RT_QUICK else 3600,
+        cbmc_args=MEMCMP_)
 
 MEMCMP = ["--unwindset", "memcmp.0:40"]
 PRIMS = ["null", "bool", "nat", "int", "nat8", "nat16", "nat32", "nat64", "int8", "int16", "int32", "int64", "f32", "f64",
@@ -229,8 +230,7 @@ OPT_WHAT = ("Option<T>::deserialize vs the spec's opt coercion (reference decode
             "opt W' flag 0 -> None; flag 1 or plain W: value read, Some(v) iff W <: T else None (value skipped through "
             "deserialize_ignored_any/deserialize_any); malformed bytes or bad flag -> Err even below opt; exact bytes "
             "consumed; skipped data charged to the skipping quota; option never free; no panic; cursor <= len")
-QUICK_OPT = {"c08_opt_u8_w_nat8", "c08_opt_u8_w_bool", "c08_opt_u8_wo_bool", "c08_opt_u8_wo_nat8", "c08_opt_u8_wo_nat16",
-             "c08_opt_u8_w_reserved", "c08_opt_bool_wo_bool", "c08_opt_u8_wo_int"}
+QUICK_OPT = {"c08_opt_u8_w_nat8", "c08_opt_u8_wo_bool", "c08_opt_u8_wo_nat8", "c08_opt_u8_w_reserved", "c08_opt_bool_wo_bool"}
 for under, tag in ((False, "w"), (True, "wo")):
     for p in PRIMS:
         n = f"c08_opt_u8_{tag}_{p}"
@@ -241,6 +241,13 @@ for under, tag in ((False, "w"), (True, "wo")):
             quick=n in QUICK_OPT, est_s=200 if p in ("text", "nat", "int") else 60, cbmc_args=MEMCMP,
             stubs=["num_bigint::BigUint::from_radix_le"] if bn else [])
 # c08_opt_u8_wo_blob_eq12 (skipped blob with hostile length below an option) is not registered: OOM at 20 GB.
+RES_WHAT = ("candid::Reserved at expected reserved: every well-formed wire value is accepted and skipped (exact consumption, charged "
+            "to the skipping quota unless the wire type is reserved itself... see harness), malformed bytes rejected; no panic")
+for p in [x for x in PRIMS if x != "nat"]:   # wire nat: OOM at 21 GB
+    add(["C08", "C06", "C07"], f"c08_reserved_w_{p}", "candid", "de_opt",
+        f"wire {p} (concrete, pooled), all value bytes of the fixed length chosen for it; symbolic quotas and error verbosity",
+        RES_WHAT, quick=False, est_s=120 if p not in ("text", "nat", "int") else 400, cap_s=2400,
+        cbmc_args=MEMCMP, stubs=["num_bigint::BigUint::from_radix_le"] if p in ("nat", "int") else [])
 for n, d in (("c08_opt_u8_wo_text_n2", "expected opt nat8, wire opt text, 2 value bytes (truncated text below opt)"),
              ("c08_opt_bool_wo_bool", "expected opt bool, wire opt bool, 3 bytes (0x02 payload below opt is an error)"),
              ("c08_opt_bool_wo_nat8", "expected opt bool, wire opt nat8, 3 bytes"),
@@ -258,8 +265,8 @@ for tgt, T in (("bytes", "&[u8] (deserialize_bytes, borrowed)"), ("bytebuf", "se
     for w in ("blob", "text", "vec_int8", "vec_bool") + (("nat8",) if tgt == "bytes" else ()):
         add(["C08", "C06"], f"c08_{tgt}_w_{w}", "candid", "de_fast",
             f"{T}; wire type {w} (concrete, pooled); 4 symbolic bytes with a one-byte length prefix; symbolic quotas",
-            BYTES_WHAT, quick=w in ("blob", "text"), est_s=120, cbmc_args=MEMCMP)
-for w, q in (("nat16", True), ("int16", True), ("nat8", False), ("nat32", False), ("bool", False)):
+            BYTES_WHAT, quick=(w in ("blob", "text") and tgt == "bytes") or (tgt == "bytebuf" and w == "text"), est_s=120, cbmc_args=MEMCMP)
+for w, q in (("nat16", False), ("int16", False), ("nat8", False), ("nat32", False), ("bool", False)):
     add(["C08", "C06", "C07"], f"c08_vec_u16_w_{w}", "candid", "de_fast",
         f"Vec<u16> at expected vec nat16, wire vec {w}; element count 2 (constant length byte), 4 symbolic payload bytes; symbolic quotas",
         "Ok => wire element type is nat16, elements == little-endian wire bytes (bulk path), consumed 5 bytes, elements charged; "
@@ -267,16 +274,16 @@ for w, q in (("nat16", True), ("int16", True), ("nat8", False), ("nat32", False)
 add(["C06", "C08"], "c06_vec_u16_hostile_len", "candid", "de_fast",
     "vec nat16 with a symbolic (possibly huge / padded) LEB128 length prefix in 10 symbolic bytes, non-allocating visitor",
     "no panic / arithmetic overflow for any length; Ok exactly when length*2 fits the remaining input, then count and "
-    "consumption match; otherwise Err", est_s=200, cap_s=2400, cbmc_args=MEMCMP)
+    "consumption match; otherwise Err", quick=False, est_s=400, cap_s=2400, cbmc_args=MEMCMP)
 add(["C06", "C07"], "c06_vec_null_bomb", "candid", "de_fast",
     "vec null with a symbolic length prefix (10 symbolic bytes), decoding quota symbolic <= 20",
     "zero-sized elements are not free: a successful decode materialised at most quota elements; space bombs are stopped",
-    est_s=200, cap_s=2400, cbmc_args=MEMCMP)
+    quick=False, est_s=500, cap_s=2400, cbmc_args=MEMCMP)
 TUP_WHAT = ("Rust tuple at a positional record vs the spec's record coercion (reference in the harness): surplus wire fields dropped "
             "AND their bytes consumed, missing optional field -> None, mismatching optional field -> None (value skipped), "
             "missing/ill-typed required field -> Err; exact value and consumption; no panic")
 # (the (u8,Option<u8>) shapes of de_tuple.rs ran out of memory at 20 GB and are not registered)
-for n, d, q in (("surplus", "(u8,bool), wire record{0:nat8;1:bool;2:nat16}", True),
+for n, d, q in (("surplus", "(u8,bool), wire record{0:nat8;1:bool;2:nat8}, unmetered", False),
                 ("missing_required", "(u8,bool), wire record{0:nat8}", False)):
     add(["C08", "C06", "C07"], f"c08_tuple_{n}", "candid", "de_tuple", d + "; all value bytes; symbolic quotas", TUP_WHAT, quick=q,
         est_s=700, cap_s=3000, mem_gb=28, cbmc_args=MEMCMP)
